@@ -54,20 +54,21 @@ CANON = {   # canonical signature of each known-defect region (used to ask the r
 
 
 def _listed_tags():
-    """finding tags (F1..) whose entry is still 'known' in the committed lists.  Read from the files, not from
-    ctx.known, so that generation and replay (which runs without the known list) execute the same operations."""
+    """Finding tags (F1..) whose entry is still 'known' in the committed lists (known_findings.json overrides the
+    per-property working file).  Read from the files, not from ctx.known, so that generation and replay (which the
+    runner executes without the known list) perform exactly the same operations."""
     import json, os
     root = os.path.dirname(os.path.dirname(os.path.abspath(__file__)))
-    tags = set()
-    for rel in ('known_findings.json', os.path.join('findings', 'C11.json')):
+    status = {}
+    for rel in (os.path.join('findings', PROPERTY + '.json'), 'known_findings.json'):
         path = os.path.join(root, rel)
         if not os.path.exists(path):
             continue
         with open(path) as f:
             for k in json.load(f):
-                if k.get('property') == PROPERTY and k.get('status') == 'known' and '-' in k.get('id', ''):
-                    tags.add(k['id'].split('-', 1)[1])
-    return tags
+                if k.get('property') == PROPERTY and '-' in k.get('id', ''):
+                    status[k['id'].split('-', 1)[1]] = k.get('status')
+    return {t for t, st in status.items() if st == 'known'}
 
 
 LISTED = _listed_tags()
@@ -111,13 +112,6 @@ class Run:
             if t[0] != keep and t[2].ix is ix:
                 self.live.remove(t)
                 self.ctx.cell('aux-dropped')
-
-    def stale_subs(self, ix, why='stale'):
-        """the row objects of this indexer were replaced ('stale'), or the stream got another thermal-condition
-        object ('stale-tc'): sub-streams handed out earlier are detached (C12's subject, avoided here)"""
-        for n, r, o in self.live:
-            if o.ix is ix:
-                o.subs = {q: ('stale-tc' if 'stale-tc' in (why, v) else 'stale') for q, v in o.subs.items()}
 
     def proxied(self, name):
         pc = self.pc.get(name)
@@ -183,10 +177,10 @@ class Run:
         base = {'mass': 'mass', 'vol': 'vol'}.get(view)
         if base == 'vol' and self.stale_idx(sm):
             t.append('phase-same-TP')
-        if base and sm.kind == 'M':
-            d = sm.ix.cache.dirty
-            if (base == 'mass' and 'expand-mass' in d) or (base == 'vol' and ('expand-vol', id(sm.tc)) in d):
-                t.append('expand-cached')
+        if sm.kind == 'M' and sm.ix.cache.dirty:
+            # a mass/volume view cached before an in-place phase expansion: reads through it are wrong and writes
+            # through it land in other rows, so every view of the stream is inside the region from then on
+            t.append('expand-cached')
         if sm.ix.cache.diverged or self.cache_conflict(name, sm, 'mass') or (base == 'vol' and self.cache_conflict(name, sm, 'vol')):
             t.append('cache-shared')
         if view == 'F_vol' and self.proxied(name):
@@ -280,8 +274,8 @@ class Run:
                 self.cmp_sum('view.F_mass', name, sm, 'F_mass', real.F_mass, mass)
                 if not (self.proxied(name) and 'F6' in self.avoid):
                     self.cmp_sum('view.F_vol', name, sm, 'F_vol', real.F_vol, vol)
-                for p, st in sorted(sm.subs.items()):
-                    if st == 'ok' and p in sm.ix.phases:
+                for p in sorted(sm.subs.phases()) if name in ('a', 'b') else ():
+                    if sm.subs.state(sm, p) == 'ok' and p in sm.ix.phases:
                         self.check_single(f'{name}[{p}]', real[p], sm, p, sm.row_of(p), True)
             if sm.kind == 'S':
                 sm.ix.cache.mass = True
@@ -325,11 +319,11 @@ class Run:
             p = ch.choice('phase', sm.labels())
             want_sub = name in ('a', 'b') and ch.bool('via_sub')
             if want_sub:
-                if sm.subs.get(p, 'ok') != 'ok':
+                if sm.subs.state(sm, p) == 'stale':
                     ctx.cell('avoided:stale-sub-stream(C12)')
                 else:
                     sub = True
-                    sm.subs[p] = 'ok'
+                    sm.subs.create(sm, p)
             obj = real[p] if sub else real
         else:
             p = sm.ix.ph.label
@@ -441,10 +435,10 @@ class Run:
         sub = False; p = None
         if sm.kind == 'M' and name in ('a', 'b') and ch.bool('via_sub'):
             p = ch.choice('phase', sm.labels())
-            if sm.subs.get(p, 'ok') != 'ok':
+            if sm.subs.state(sm, p) == 'stale':
                 ctx.cell('avoided:stale-sub-stream(C12)')
             else:
-                sub = True; sm.subs[p] = 'ok'
+                sub = True; sm.subs.create(sm, p)
         obj = real[p] if sub else real
         which = ch.choice('which', ['F_mol', 'F_mass', 'F_vol', 'set_total_flow'])
         if which == 'set_total_flow':
@@ -571,24 +565,31 @@ class Run:
         elif src == 'S' and dst == 'M':
             ph, rows = M.convert_rows(sm.labels(), sm.rows(), target, pk.n)
             sm.ix = M.Ix(sm.ix.pkg, 'M', ph, M.DataCell(rows))
-            sm.subs = {}
+            sm.subs = M.Subs()            # Stream.phases setter: self._streams = {}
         elif src == 'M' and dst == 'S':
             sm.ix = M.Ix(sm.ix.pkg, 'S', [], M.DataCell([sm.total()]), M.PhCell(target[0]))
-            sm.subs = {}
+            sm.subs.clear()               # MultiStream.phase setter: self._streams.clear() (in place: shared with proxies)
         else:
             if target != sm.labels():
                 ph, rows = M.convert_rows(sm.labels(), sm.rows(), target, pk.n)
                 sm.ix = M.Ix(sm.ix.pkg, 'M', ph, M.DataCell(rows))
-                sm.subs = {q: ('stale-tc' if v == 'stale-tc' else 'stale') for q, v in sm.subs.items()}
+                sm.subs.detach_all()      # C12-F1: _streams keeps sub-streams of the previous indexer
                 self.pc[name] = PC()
         self.mark(sm, f'phases:{src}->{dst}')
 
+    def bad_sub(self, sm):
+        """a sub-stream of a phase that is no longer in the phase set sits in _streams (left there by C12-F1):
+        re-linking the sub-streams then raises UndefinedPhase (C11-F5)"""
+        return sm.kind == 'M' and any(q not in sm.labels() and twin(q) not in sm.labels() for q in sm.subs.phases())
+
     def op_link(self, step):
         ch, ctx = self.ch, self.ctx
-        name = ch.choice('target', ['a', 'b']); other = 'b' if name == 'a' else 'a'
-        real, sm = self.get(name); oreal, om = self.get(other)
+        name = ch.choice('target', ['a', 'b'])
+        real, sm = self.get(name)
+        other = ch.choice('other', [n for n in self.names() if n != name])
+        oreal, om = self.get(other)
         flow = ch.bool('flow'); phase = ch.bool('phase'); TP = ch.bool('TP')
-        if sm.ix.pkg != om.ix.pkg or (sm.kind == 'M' and om.kind == 'M' and sm.labels() != om.labels()):
+        if sm.ix.pkg != om.ix.pkg or (sm.kind == 'M' and om.kind == 'M' and sm.labels() != om.labels()) or om.ix is sm.ix:
             ctx.cell('skipped:link-incompatible-layout')
             return self.op_T(step)
         region = f'kind={sm.kind}{om.kind},flow={int(flow)},phase={int(phase)},TP={int(TP)}'
@@ -601,8 +602,17 @@ class Run:
             ctx.fail(f'op.link|{region}|accepted', 'Stream linked with MultiStream without the documented RuntimeError')
         full = TP and flow and (phase or sm.kind == 'M')
         shared = self.cache_is_shared(sm)
-        if shared and not full and 'F3' in self.avoid:
+        diverges = shared and not full and any(
+            o.ix is not sm.ix and o.ix.cache is sm.ix.cache and
+            ((flow and o.ix.data is not om.ix.data) or (TP and o.tc is not om.tc) or (phase and sm.kind == 'S' and o.ix.ph is not om.ix.ph))
+            for n, r, o in self.live)
+        if diverges and 'F3' in self.avoid:
             ctx.cell('avoided:partial-link-with-shared-data-cache'); return self.op_T(step)
+        relink = (flow or TP) and sm.kind == 'M'
+        bad = relink and self.bad_sub(sm)
+        if bad and 'F5' in self.avoid:
+            ctx.cell('avoided:relink-with-sub-stream-of-removed-phase'); return self.op_T(step)
+        if bad: region += ',trig=sub-of-removed-phase'
         ctx.call('op.link', real.link_with, oreal, flow, phase, TP, region=region)
         ctx.cell('op:link')
         ctx.cell('link:full' if full else 'link:partial')
@@ -610,37 +620,34 @@ class Run:
             sm.ix.cache = om.ix.cache
         else:
             sm.ix.cache.clear()
-            if shared:
+            if diverges:
                 sm.ix.cache.diverged = True      # cleared in place: the dict stays shared with the earlier link partner
         if TP:
-            if sm.tc is not om.tc:
-                sm.subs = {q: 'stale-tc' for q in sm.subs}
             sm.tc = om.tc
         if flow:
             sm.ix.data = om.ix.data
-            self.stale_subs(sm.ix)
         if phase and sm.kind == 'S':
             sm.ix.ph = om.ix.ph
+        if relink:
+            sm.subs.relink(sm)                   # _relink_phase_streams (also resets the property cache)
+            self.pc[name] = PC()
         self.mark(sm, f'link({int(flow)}{int(phase)}{int(TP)})')
 
     def op_unlink(self, step):
         ch, ctx = self.ch, self.ctx
         name = self.pick('target'); real, sm = self.get(name)
-        shared = self.cache_is_shared(sm)
-        if shared and 'F3' in self.avoid:
-            ctx.cell('avoided:unlink-with-shared-data-cache')
-            return self.op_T(step)
-        ctx.call('op.unlink', real.unlink, region=f'kind={sm.kind},shared_cache={int(shared)}')
+        bad = self.bad_sub(sm)
+        if bad and 'F5' in self.avoid:
+            ctx.cell('avoided:relink-with-sub-stream-of-removed-phase'); return self.op_T(step)
+        region = f'kind={sm.kind}' + (',trig=sub-of-removed-phase' if bad else '')
+        ctx.call('op.unlink', real.unlink, region=region)
         ctx.cell('op:unlink')
-        if sm.kind == 'S':
-            sm.ix.ph = M.PhCell(sm.ix.ph.label)
-        sm.ix.cache.clear()
-        if shared:
-            sm.ix.cache.diverged = True          # cleared in place: the dict stays shared with the link partner
-        sm.ix.data = sm.ix.data.copy()
+        # the stream gets its own indexer (own data, phase container and cache), thermal condition and property cache
+        old = sm.ix
+        sm.ix = M.Ix(old.pkg, old.kind, old.phases, old.data.copy(), M.PhCell(old.ph.label) if old.kind == 'S' else None)
         sm.tc = sm.tc.copy()
-        self.stale_subs(sm.ix)
-        sm.subs = {q: 'stale-tc' for q in sm.subs}
+        if sm.kind == 'M':
+            sm.subs.relink(sm)
         self.pc[name] = PC()
         self.mark(sm, 'unlink')
 
@@ -676,11 +683,6 @@ class Run:
             compat = ''.join(x.lower() for x in P1) == ''.join(x.lower() for x in P2)
             if P1 != P2 and not compat:
                 new_labels = [q for q in P2 if q not in P1]
-        elif sm.kind == 'S' and om.kind == 'M':
-            q = sm.ix.ph.label
-            if len(om.labels()) >= 2 and sm.rows()[0].any() and q not in om.labels() and twin(q) not in om.labels():
-                # Stream.copy_like first converts the *current* contents to the source's phases (C13's subject)
-                ctx.cell('avoided:copy_like-current-label-not-in-source-phases(C13)'); return self.op_T(step)
         expand = bool(new_labels)
         sharers = [o for n, r, o in self.live if o.ix is not sm.ix and o.ix.data is sm.ix.data]
         if expand and sharers and 'F7' in self.avoid:
@@ -690,8 +692,12 @@ class Run:
         ctx.call('op.copy_like', real.copy_like, oreal, region=region + f',expand={int(expand)}')
         ctx.cell('op:copy_like'); ctx.cell(f'copy_like:{sm.kind}{om.kind}')
         if sm.kind == 'S' and om.kind == 'M' and len(om.labels()) >= 2:
+            # Stream.copy_like: self.empty(); self.phase = phases[0]; self.phases = phases  (the first two act in place
+            # on the shared flow data / phase container of linked streams)
+            sm.rows()[0][:] = 0.0
+            sm.ix.ph.label = om.labels()[0]
             sm.ix = M.Ix(sm.ix.pkg, 'M', om.labels(), M.DataCell([np.zeros(sm.pk.n) for _ in om.labels()]))
-            sm.subs = {}
+            sm.subs = M.Subs()
         if expand:
             c = sm.ix.cache
             if c.mass: c.dirty.add('expand-mass')
@@ -719,7 +725,7 @@ class Run:
         name = ch.choice('target', ['a', 'b']); real, sm = self.get(name)
         cands = [pid for pid in chem.PACKAGES if pid != sm.ix.pkg and M.can_hold(Pk(pid), sm.pk, sm.rows())]
         pid = ch.choice('pkg', cands)      # A or B always qualify
-        bad_sub = sm.kind == 'M' and any(q not in sm.labels() and twin(q) not in sm.labels() for q in sm.subs)
+        bad_sub = self.bad_sub(sm)
         region = f'kind={sm.kind},trig={"sub-of-removed-phase" if bad_sub else "none"}'
         if bad_sub and 'F5' in self.avoid:
             ctx.cell('avoided:reset_thermo-with-sub-stream-of-removed-phase'); return self.op_T(step)
@@ -730,7 +736,8 @@ class Run:
         sm.ix.data = M.DataCell([M.remap(r, sm.pk, new) for r in sm.rows()])
         sm.ix.cache = M.CacheCell()
         sm.ix.pkg = pid
-        sm.subs = {q: ('stale-tc' if v == 'stale-tc' else 'ok') for q, v in sm.subs.items()}
+        if sm.kind == 'M':
+            sm.subs.relink_data(sm)
         self.pc[name] = PC()
         self.mark(sm, 'reset_thermo')
 
@@ -747,6 +754,7 @@ class Run:
         if which == 'proxy':
             r = ctx.call('op.proxy', real.proxy, region=f'born={sm.born}')
             m = M.SM(new, sm.ix, sm.tc, sm.born)
+            m.subs = sm.subs                     # proxy() copies the _streams dict object
             self.pc[new] = self.pc[name]
             self.pc[name].shared = True
         else:
@@ -830,10 +838,10 @@ class Run:
             return self.op_read_key(step)
         name = ch.choice('target', multis); real, sm = self.get(name)
         p = ch.choice('phase', sm.labels())
-        if sm.subs.get(p, 'ok') != 'ok':
+        if sm.subs.state(sm, p) == 'stale':
             ctx.cell('avoided:stale-sub-stream(C12)'); return
         ctx.call('op.sub', real.__getitem__, p, region='kind=M')
-        sm.subs[p] = 'ok'
+        sm.subs.create(sm, p)
         ctx.cell('op:sub'); self.hist.append(['sub', p])
 
     # ------------------------------------------------------------------ avoid
